@@ -146,19 +146,24 @@ DECODED_NEEDED_REASON = 'the serializer encodes the whole sheet text with the es
 
 
 def r03c(chk, rid='R03.c'):
-    chk.rule(rid, 'decode/encode symmetry by token kind: ' + DECODED_NEEDED_REASON + '; kinds whose production can match a non-ASCII character (decided on the automata) must be in the tokenizer\'s unicodesub list; the serializer re-escapes exactly STRING and URI values, the remaining decoded kinds are the known "identifier escapes are not re-encoded" finding, which must not grow')
+    chk.rule(rid, 'decode/encode symmetry by token kind: ' + DECODED_NEEDED_REASON + '; kinds whose production can match a non-ASCII character (decided on the automata) must be decoded by the tokenizer (which kinds are is read off by evaluating Tokenizer.tokenize on a token of each kind that holds an escape); the serializer re-escapes exactly STRING and URI values, the remaining decoded kinds are the known "identifier escapes are not re-encoded" finding, which must not grow')
     tt = TokTables(chk.repo)
-    fn = chk.repo.fn(TOK, 'Tokenizer.tokenize')
-    tm = chk.repo.mod(TOK)
-    lists = [n for n in ast.walk(fn) if isinstance(n, ast.Compare) and isinstance(n.ops[0], ast.In) and text(n.left) == 'name'
-             and len(resolve_collection(tm, fn, n.comparators[0]) or []) >= 6]
-    if len(lists) != 1:
-        raise AnalysisError('Tokenizer.tokenize: list of decoded token kinds not found')
-    decoded = {const(e) for e in resolve_collection(tm, fn, lists[0].comparators[0])}
-    # the branch must apply unicodesub
-    par = chk.repo.mod(TOK).parents[lists[0]]
-    ok = isinstance(par, ast.If) and any('self.unicodesub(_repl, found)' in text(s) for s in par.body)
-    chk.ob(rid, TOK, 'Tokenizer.tokenize', 'token kinds in the list get unicodesub applied', ok, '')
+    # which kinds the tokenizer decodes is read off by evaluating Tokenizer.tokenize itself (see R05.i) on one
+    # token of each kind that holds the escape \e9
+    from sa.absint import Raised as _Raised
+
+    from .c05 import tokenize_text
+
+    samples = {'IDENT': 'a\\e9 b', 'ATKEYWORD': '@a\\e9 b', 'STRING': '"a\\e9 b"', 'INVALID': '"a\\e9 b', 'HASH': '#a\\e9 b', 'DIMENSION': '1a\\e9 b', 'URI': 'url(a\\e9 b)',
+               'FUNCTION': 'a\\e9 b(', 'COMMENT': '/*a\\e9 b*/'}
+    decoded = set()
+    for kind, sample in samples.items():
+        toks = tokenize_text(chk.repo, sample, fullsheet=False)
+        if isinstance(toks, _Raised) or not toks or toks[0][0] != kind:
+            raise AnalysisError(f'R03.c: the sample {sample!r} is not tokenised as one {kind} token ({toks!r})')
+        if '\xe9' in toks[0][1] and '\\' not in toks[0][1]:
+            decoded.add(kind)
+    chk.extra['decoded_kinds'] = sorted(decoded)
     nonascii = rx.CS([(0x80, rx.MAXCP)])
     can = set()
     for name in tt.names():
